@@ -49,6 +49,11 @@ func openStore(sc StoreCfg, eh *extension.Host) (storage.Store, error) {
 		return mem.New(cfg, eh)
 	case "file":
 		cfg.Params["path"] = filePath
+		// Every file.New in a harness stands for a process start: package-level
+		// state (the message id counter) begins again, as it does in a new process.
+		if file.VerifProcessRestart() {
+			simrt.Count("probe.id_counter_restarts", 1)
+		}
 		return file.New(cfg, eh)
 	}
 	return nil, fmt.Errorf("unknown backend %q", sc.Backend)
